@@ -164,8 +164,6 @@ WRAP = {
     ("KeyBlock", "cryptographic_algorithm"): lambda v: attributes.CryptographicAlgorithm(v),
     ("KeyBlock", "cryptographic_length"): lambda v: attributes.CryptographicLength(v),
     ("KeyValue", "key_material"): lambda v: objects.KeyMaterial(v),
-    ("RevocationReason", "revocation_code"): lambda v: objects.RevocationReasonCode(v),
-    ("RevocationReason", "revocation_message"): lambda v: primitives.TextString(v, T.REVOCATION_MESSAGE),
     ("Certificate", "certificate_type"): lambda v: v,
     ("Certificate", "certificate_value"): lambda v: v,
     ("SecretData", "secret_data_type"): lambda v: secrets.SecretData.SecretDataType(v),
@@ -194,7 +192,7 @@ KW = {
     ("RevocationReason", "revocation_code"): "code",
     ("RevocationReason", "revocation_message"): "message",
 }
-# attribute to read back where it differs from the field name
+# attribute to read back where it differs from the field name, or callable(obj) computing the field from public attributes
 GET = {}
 # class -> callable(kwargs, val) -> object, for classes the generic path cannot build
 BUILD = {}
@@ -213,22 +211,31 @@ def rule_of(name):
 
 
 def attr_value_object(name, v, by_tag):
-    """The value object a caller would put into an attribute named `name`."""
+    """The value object a caller puts into an attribute named `name`: what AttributeValueFactory gives for
+    the name (the route AttributeFactory.create_attribute takes); under KMIP 2.0 the same object carries the
+    attribute's own tag (as convert_template_attribute_to_attributes does)."""
     r = rule_of(name)
     if r["k"] == "struct":
-        return construct(r["of"], v)
-    py = prim_to_py(r["k"], r["of"], v)
+        o = construct(r["of"], v)
+    else:
+        py = prim_to_py(r["k"], r["of"], v)
+        if name not in S()["attr"]:
+            o = attributes.CustomAttribute(py)
+        elif r["k"] == "mask":
+            o = attributes.CryptographicUsageMask(py)
+        else:
+            o = _factory.create_attribute_value(enums.AttributeType(name), py)
     if by_tag:
-        return _factory.create_attribute_value_by_enum(T[r["t"]], py)
-    if name not in S()["attr"]:
-        return attributes.CustomAttribute(py)
-    return _factory.create_attribute_value(enums.AttributeType(name), py)
+        o.tag = T[r["t"]]
+    return o
 
 
 def conv(cls, f, v):
     k = f["k"]
     if k == "struct":
         return construct(f["of"], v)
+    if k == "attrs":
+        return construct("Attribute", v)
     if k == "union":
         return construct(v["_k"], v)
     if k == "attrval":
@@ -275,6 +282,8 @@ def unconv(cls, f, x, holder=None):
     k = f["k"]
     if k == "struct":
         return project(f["of"], x)
+    if k == "attrs":
+        return project("Attribute", x)
     if k == "union":
         n = type(x).__name__
         if n not in S()["schema"]:
@@ -301,9 +310,12 @@ def project(cls, obj):
     out = {"_k": cls}
     for f in S()["schema"][cls]:
         name = GET.get((cls, f["n"]), f["n"])
-        if not hasattr(obj, name):
-            raise Untyped("decoded %s object has no attribute %s" % (cls, name))
-        x = getattr(obj, name)
+        if callable(name):
+            x = name(obj)           # a view computed from the object's public attributes
+        else:
+            if not hasattr(obj, name):
+                raise Untyped("decoded %s object has no attribute %s" % (cls, name))
+            x = getattr(obj, name)
         if x is None:
             continue
         if f["c"] in "*+":
